@@ -48,6 +48,9 @@ def families(tier):
     # '... or while the cache file is being written': an OSError at the open / data write / final rename of the cache write
     q.append({'name': 'cachewrite', 'params': {'skel': 'A3', 'hist': 'X', 'kinds': ['is_dir'], 'roles': ['o'], 'targets': ['o/d/g'],
                                                'modes': ['ok']}, 'weight': 1})
+    # ... with the cache file in a directory that the previous build created (and recorded)
+    q.append({'name': 'cachewrite', 'params': {'skel': 'A3', 'hist': 'BX', 'kinds': ['is_dir'], 'roles': ['o'], 'targets': ['o/d/g', 'c/t'],
+                                               'modes': ['ok'], 'cache': 'c/cache', 'universe': ['c', 'o', 'o/d', 'o/d/g', 'in', 'in/x']}, 'weight': 1})
     q.append({'name': 'cachewrite', 'params': {'skel': 'A3', 'hist': 'BMX', 'kinds': ['is_dir'], 'roles': ['o'], 'targets': ['o/d/g'],
                                                'modes': ['ok'], 'mut_paths': ['o/d/g', 'o/d']}, 'weight': 1})
     q.append({'name': 'P2', 'params': {'hist': 'BF', 'universe': ['o', 'o/d', 'o/dx']}, 'weight': 1})
